@@ -22,6 +22,7 @@ import (
 var FxPackages = [][2]string{
 	{"fx/pk", "pk"}, {"fx/pk2", "pk2"}, {"fx/a/pkg", "pkg"}, {"fx/b/pkg", "pkg"}, {"fx/p-k.g", "pkg"},
 	{"fx/ab", "ab"}, {"fx/a", "a"}, {"fx/fmt", "fmt"}, {"fx/os", "os"}, {"fx/errors", "errors"},
+	{"fx/ab/ab", "ab"}, // an alias followed by a sub-path that spells the alias again
 }
 
 // FxManyPackages: fourteen more copies of the fixture package, for configurations with more distinct import paths
